@@ -20,7 +20,7 @@ def _jsonable(x):
     return tlaval.to_jsonable(x)
 
 
-def replay_behaviour(beh, want=('C01', 'C02', 'C03'), canon=False):
+def replay_behaviour(beh, want=('C01', 'C02', 'C03'), canon=False, variant=None):
     """Returns (findings, nsteps, records). finding = dict(prop, clause, step, op, detail).
     records (if canon) = canonical per-step serialisation for cross-configuration comparison (C04)."""
     import tenpy.linalg.np_conserved as npc_mod  # noqa: F401
@@ -32,7 +32,7 @@ def replay_behaviour(beh, want=('C01', 'C02', 'C03'), canon=False):
     pool = {}
     for s, t in enumerate(beh['init']):
         if t['legs']:
-            pool[s + 1] = npc.build_array(chinfo, t)
+            pool[s + 1] = npc.storage_variant(npc.build_array(chinfo, t), beh.get('variant', 0) if variant is None else variant)
             if 'C01' in want:
                 clause = npc.compare_tensor(npc.project_array(pool[s + 1]), t, mods)
                 if clause:
@@ -112,6 +112,17 @@ def replay_behaviour(beh, want=('C01', 'C02', 'C03'), canon=False):
                     findings.append(dict(prop='C03', clause='operand-changed', step=n, op=op,
                                          detail=dict(slot=s, target=out, operands=[l.get('a'), l.get('b')])))
                     break
+            # sharing of tensor entries between slots must be a subset of what the specification allows (`shared`)
+            allowed = {frozenset(int(x) for x in pr) for pr in st.get('sh', [])}
+            slots = sorted(pool)
+            for i1, s1 in enumerate(slots):
+                for s2 in slots[i1 + 1:]:
+                    if frozenset((s1, s2)) in allowed or pool[s1] is pool[s2]:
+                        continue
+                    if any(np.shares_memory(x, y) for x in pool[s1]._data for y in pool[s2]._data if x.size and y.size):
+                        findings.append(dict(prop='C03', clause='unexpected-aliasing', step=n, op=op,
+                                             detail=dict(slots=[s1, s2], target=out)))
+                        break
             for lid, (leg, fp) in leg_registry.items():
                 if npc.fingerprint_leg(leg) != fp:
                     findings.append(dict(prop='C03', clause='leg-mutated', step=n, op=op, detail=dict(target=out)))
@@ -140,7 +151,7 @@ def context_flags(pool, l):
     if a is not None:
         if any(leg.ind_len == 0 for leg in a.legs):
             flags.append('zero-length-leg')
-        if l['op'] in ('getitem', 'setitem_scaled'):
+        if l['op'] in ('getitem', 'setitem_scaled', 'setitem_from'):
             for ax, sp in enumerate(l['spec']):
                 if sp['k'] == 'sel' and list(sp['sel']) != sorted(sp['sel']):
                     flags.append('unsorted-selection')
@@ -222,6 +233,9 @@ def run_property(ctx, prop, seed_offset=0, tiers=None):
                     ctx.violation(dict(kind='mc', spec='NpcProgram', invariant=info['violated'][0]),
                                   dict(config=r['cfg'], trace=info['trace']))
         for bi, beh in enumerate(r['behaviours']):
+            # the same behaviour is replayed from equivalent internal storage states of the initial tensors
+            # (lexsorted blocks / permuted block order / an explicitly stored zero block), chosen per behaviour
+            beh['variant'] = (bi + ctx.seed) % 3
             findings, nsteps, _ = replay_behaviour(beh, want=(prop,) if prop != 'C01' else ('C01',))
             ctx.trace_ok(1)
             for n, st in enumerate(beh['steps']):
